@@ -239,7 +239,9 @@ def check_B4(ctx, facts):
             kvw = [(b, t) for b, t in writes if db_of(t) == 'kv']
             metaw = [b for b, t in writes if db_of(t) == 'meta' and last_seg(cname(t)) == 'put']
             if kvw:
-                good = bool(metaw) and all(body.must_pass([b], metaw, commits) for b, t in kvw)
+                # (path-sensitive over re-wrapped Results: a failed document write inside an extracted helper does not reach the commit)
+                blocked = [(p, m) for m in metaw for p in body.pred(m)]
+                good = bool(metaw) and all(not (set(commits) & (refined_reach(body, body.succ(b), blocked_edges=blocked))) for b, t in kvw)
                 ctx.ob('C17.B4', '%s|pairing' % name, good, site(body, kvw[0][1]['cs']),
                        'every document write is followed by its metadata write before commit' if good else
                        'a document write can be committed without its metadata write: get() then panics on the missing stamp / the restart rebuild misses the document')
@@ -250,10 +252,16 @@ def check_B5(ctx, facts):
     em = [b for b in facts.bodies.values() if b.crate == 'datacake_sqlite' and b.kind == 'closure' and 'StorageHandle::execute_many' in b.name]
     if not em:
         ctx.bad('C17.B5', 'execute_many', '', 'execute_many task closure not found (fail closed)')
-    for body in em:
+    # the task closure itself (closures nested in it — e.g. the body of a fold over the parameter sets — belong to it)
+    outer = [b for b in em if not any(o is not b and b.name.startswith(o.name + '::{') for o in em)]
+    for body in outer:
         calls = list(body.calls())
         tx = [b for b, t in calls if cname(t) and cname(t).startswith('rusqlite::') and last_seg(cname(t)) in ('transaction', 'unchecked_transaction', 'transaction_with_behavior')]
         ex = [b for b, t in calls if cname(t) and cname(t).endswith('Statement::execute')]
+        nested = [g for g in facts.group(body) if g is not body and any(cname(t) and cname(t).endswith('Statement::execute') for _b, t in g.calls())]
+        for g in nested:
+            # the closure that executes the statement is created inside the transaction
+            ex += [b for b, s_, cdef, _ops in closure_aggregates(body) if cdef == g.defp]
         cm = [b for b, t in calls if cname(t) and cname(t).endswith('Transaction::commit')]
         oks = ok_return_blocks(body)
         good = len(tx) == 1 and ex and cm and all(body.dominates(tx[0], b) for b in ex) and body.must_pass([tx[0]], cm, oks)
